@@ -409,25 +409,27 @@ PLANS = {
                 ["flow_q", "ibc_q", "same_q", "sender_q", "limits_q"], FLOW_EMIT + IBC_EMIT + ["same_t"], W_Q, W_T),
     "C04": plan(["flow_q", "limits_q", "limits1_q", "downrate_q"], FLOW_MC + ["limits_q", "limits1_q", "downrate_q"], ["flow_q", "limits_q", "limits1_q", "downrate_q"],
                 ["flow_extras_t", "flow_t", "limits_q", "limits1_q", "downrate_q", "flow_resume_t"], W_Q, W_T),
-    "C05": plan(["flow_q", "dust_q"], FLOW_MC + ["dust_q", "flow_deep_t"], ["flow_q", "dust_q"], FLOW_EMIT + ["dust_q"], W_Q, W_T, reach=["Received"]),
+    "C05": plan(["flow_q", "dust_q", "period_q", "long_q"], FLOW_MC + ["dust_q", "flow_deep_t", "period_q", "long_q"], ["flow_q", "dust_q", "period_q", "long_q"],
+                FLOW_EMIT + ["dust_q", "period_q", "long_q"], W_Q, W_T, reach=["Received"]),
     "C06": plan(["flow_q", "period_q"], FLOW_MC + ["period_q"], ["flow_q", "period_q"], FLOW_EMIT + ["period_q"], W_Q, W_T, reach=["Received"]),
     "C07": plan(["ibc_q", "ibc_force_q"], IBC_MC + ["ibc_deep_t", "ibc_force_q"], ["ibc_q", "ibc_force_q"], IBC_EMIT + ["ibc_q", "ibc_force_q"], W_Q, W_T, reach=["Refundable"], scen=["KF2"]),
-    "C08": plan(["gate_q", "own"], GATE_MC + ["own_t"], ["gate_q", "own"], GATE_EMIT + ["own_t"], W_Q, W_T),
-    "C09": plan(["gates_q"], GATE_MC, ["gates_q"], GATE_EMIT, W_Q, W_T, scen=["C09"]),
-    "C10": plan(["gate_q"], GATE_MC, ["gate_q"], GATE_EMIT, W_Q, W_T),
+    "C08": plan(["gate_q", "own"], GATE_MC + ["own_t"], ["gate_q", "own"], GATE_EMIT + ["own_t"], W_Q, W_T, scen=["MIG"]),
+    "C09": plan(["gates_q"], GATE_MC, ["gates_q"], GATE_EMIT, W_Q, W_T, scen=["C09", "MIG"]),
+    "C10": plan(["gate_q"], GATE_MC, ["gate_q"], GATE_EMIT, W_Q, W_T, scen=["MIG"]),
     "C11": plan(["flow_q", "flow_treasury_q", "fees_q", "fee150_q", "fee100_q", "zerolst_q"], ["flow_t", "flow_treasury_t", "flow_amounts_t", "fees_t", "fee150_q", "fee100_q", "zerolst_q"],
-                ["flow_treasury_q", "fees_q", "fee150_q", "fee100_q", "zerolst_q"], ["flow_t", "flow_treasury_t", "fees_t", "fee150_q", "fee100_q", "zerolst_q"], W_Q, W_T),
+                ["flow_treasury_q", "fees_q", "fee150_q", "fee100_q", "zerolst_q"], ["flow_t", "flow_treasury_t", "fees_t", "fee150_q", "fee100_q", "zerolst_q"], W_Q, W_T, scen=["MIG"]),
     "C12": plan(["own"], ["own_t"], ["own"], ["own_t"], [("admin", 10, 60)], [("admin", 150, 70)]),
     "C13": plan(["treasury_q", "flow_treasury_q"], ["treasury_t", "flow_treasury_q"], ["treasury_q", "flow_treasury_q"], ["treasury_t", "flow_treasury_q"], [], []),
     "C14": plan(["gates_q"], ["gateadmin_t"], [], ["gateadmin_t"], [("admin", 8, 60)], [("admin", 100, 70)]),
     "C15": plan(["flow_q", "flow_treasury_q", "resume_q"], ["flow_t", "flow_treasury_t", "flow_amounts_t", "flow_resume_t"], ["flow_q", "flow_treasury_q", "resume_q"],
-                ["flow_t", "flow_treasury_t", "flow_extras_t"], W_Q, W_T),
+                ["flow_t", "flow_treasury_t", "flow_extras_t"], W_Q, W_T, scen=["MIG"]),
     "C16": plan(["flow_q", "gates_q", "downrate_q"], FLOW_MC + IBC_MC + GATE_MC + ["downrate_q"], ["flow_treasury_q", "ibc_q", "gates_q", "own", "treasury_q", "downrate_q", "fee150_q"],
                 ["flow_t", "flow_treasury_t", "flow_extras_t", "flow_resume_t", "ibc2_t", "gate_q", "gateadmin_t", "own_t", "treasury_q", "downrate_q", "fee150_q"], W_Q, W_T,
                 wide={"quick": [(30, 60, 0), (30, 60, 1)], "thorough": [(400, 80, 0), (400, 80, 1)]}),
-    "C17": plan(["flow_q"], ["flow_t"], ["flow_q"], ["flow_t"], [("chaos", 6, 60)], [("chaos", 60, 70)]),
+    "C17": plan(["flow_q", "dust_q"], ["flow_t", "dust_q"], ["flow_q", "dust_q"], ["flow_t", "dust_q"], [("chaos", 6, 60)], [("chaos", 60, 70)]),
     "C18": plan(["ibc_q"], IBC_MC, [], [], [], [], scen=["C18"]),
-    "C19": plan(["flow_q", "limits1_q", "downrate_q"], ["flow_t", "limits1_q", "downrate_q"], ["flow_q", "limits1_q", "downrate_q"], ["flow_t", "limits1_q", "limits_q", "downrate_q", "flow_resume_t"],
+    "C19": plan(["flow_q", "limits1_q", "downrate_q", "flow_treasury_q"], ["flow_t", "limits1_q", "downrate_q", "flow_treasury_q"], ["flow_q", "limits1_q", "downrate_q", "flow_treasury_q"],
+                ["flow_t", "limits1_q", "limits_q", "downrate_q", "flow_resume_t", "flow_treasury_t"],
                 [("chaos", 8, 60)], [("chaos", 100, 70)], scen=["C19b"]),
 }
 LEVEL = "model_checking"
@@ -560,15 +562,15 @@ def hook_c19(binp, tier, seed, wd):
     extra, viols = {}, []
     bin_mw = build(True)
     pairs = []
-    name = "flow_q" if tier == "quick" else "flow_t"
-    path, _ = edges_for(name, wd)
-    nedges = int(subprocess.run(["grep", "-c", "^\"EDGE ", path], stdout=subprocess.PIPE, text=True).stdout.strip() or 0)
-    outs = {}
-    for tag, b in (("osmosis", binp), ("miniwasm", bin_mw)):
-        (out, st), = replay_edges(b, name, wd, 1200 if tier == "quick" else 8000, seed, tag="-" + tag)
-        outs[tag] = out
-        extra[f"tree_{tag}"] = {k: st[k] for k in ("executed", "mismatches", "lines")}
-    pairs.append(("tree", outs["osmosis"], outs["miniwasm"]))
+    # (limits1_q: stakes whose mint rounds to zero, expectations one below / at / above the mint)
+    for name in (["flow_q", "limits1_q"] if tier == "quick" else ["flow_t", "limits1_q", "limits_q"]):
+        path, _ = edges_for(name, wd)
+        outs = {}
+        for tag, b in (("osmosis", binp), ("miniwasm", bin_mw)):
+            (out, st), = replay_edges(b, name, wd, 1200 if tier == "quick" else 8000, seed, tag="-" + tag)
+            outs[tag] = out
+            extra[f"tree_{name}_{tag}"] = {k: st[k] for k in ("executed", "mismatches", "lines")}
+        pairs.append(("tree-" + name, outs["osmosis"], outs["miniwasm"]))
     for mode, runs, steps in ([("chaos", 8, 60), ("honest", 6, 60)] if tier == "quick" else [("chaos", 100, 70), ("honest", 60, 70), ("admin", 60, 70)]):
         fa, fb = os.path.join(wd, f"dual-{mode}-osmosis.ndjson"), os.path.join(wd, f"dual-{mode}-miniwasm.ndjson")
         mwh(binp, ["walk", fa, seed, runs, steps, mode])
